@@ -43,6 +43,9 @@ var Corpus = []string{
 	`query Op { nodes { ...N ... on B { items { name tags score } } } } fragment N on Node { id name ...N2 } fragment N2 on Node { name }`,
 	`query Op { a { inl inlStrict guarded } guardedRoot { a1 } items { score owner { id } } }`,
 	`mutation Op { m1 m2 m3 { a1 kids { id } } m4 { other { a1 } } }`,
+	// one object-valued field selected on the interface and again under each concrete type (three selections, so the
+	// parsed selection set has spare capacity), in a list whose elements have different concrete types
+	`query Op { nodes { link { a1 a2 inl } ... on A { link { name } } ... on B { link { id } } } }`,
 }
 
 func genOracles(r *gen.Rand, base xeng.Oracle, log [][4]string, n int) []xeng.Oracle {
@@ -293,6 +296,20 @@ func RunFull(c *gen.Ctx, prop string, cfgs []xeng.Config, nops, perOp int, singl
 					plan = append(plan, planned{i, o})
 				}
 			}
+		}
+		if strings.Contains(q, "nodes { link {") {
+			o := xeng.NewOracle()
+			o.Lens["nodes"] = 4
+			for k, c := range []string{"A", "B", "A", "B"} {
+				o.Concretes[fmt.Sprintf("nodes.%d", k)] = c
+				o.Fields[fmt.Sprintf("nodes.%d.link", k)] = xeng.FieldPlan{Delay: 2 + 3*(k%2)}
+			}
+			plan = append(plan, planned{i, o})
+			o2 := o.Clone()
+			for k := range []int{0, 1, 2, 3} {
+				o2.Fields[fmt.Sprintf("nodes.%d.link", k)] = xeng.FieldPlan{Delay: 6 - 2*(k%2)}
+			}
+			plan = append(plan, planned{i, o2})
 		}
 		if strings.Contains(q, "nodes { ...N") {
 			o := xeng.NewOracle()
